@@ -53,6 +53,11 @@ Definition render_val (d : str) (v : rval) : str :=
 (** characters allowed in a bare (unquoted) token: no blank, no '#', no double quote *)
 Definition tok_char (c : N) : bool := negb (py_isspace c) && negb (N.eqb c 35) && negb (N.eqb c QUOTE).
 
+(** text that can stand as an unquoted value: no '#', no double quote, no outer blanks (inner blanks
+    allowed -- such a text is then rejected by all three numeric parsers); may be empty *)
+Definition bare_text (tok : str) : bool :=
+  lacks 35 tok && qfree tok && str_eqb (py_strip tok) tok.
+
 (** float tokens: accepted by float(), free of blanks/'#'/quotes, and carrying a float marker
     ('.', inf/nan letters, or an exponent sign) -- without a marker a token made of hex digits such as
     1e5 is read as the hexadecimal integer 485 by the int(s, 16) fall-back. *)
